@@ -33,6 +33,8 @@ def layers_for(rep):
         return [Lq(0.5 * R, 9000.0, 4.0e11), S(R, 4000.0, 6.0e10 + 5.0e9j, K)]
     if name == "solid_liquid_solid":
         return [S(0.3 * R, 11000.0, 1.5e11 + 1.0e9j, 6.0e11), Lq(0.55 * R, 9000.0, 4.0e11), S(R, 4000.0, 6.0e10 + 5.0e9j, K)]
+    if name == "dyn_liquid_core":
+        return [dict(Lq(0.5 * R, 9000.0, 4.0e11), static=False), S(R, 4000.0, 6.0e10 + 5.0e9j, K)]
     if name == "ocean_world":          # static-liquid SURFACE layer (ocean): only y5, hence only k, is defined at the surface
         return [S(0.5 * R, 9000.0, 1.0e11 + 1.0e9j, 4.0e11), S(0.9 * R, 4000.0, 6.0e10 + 5.0e9j, K), dict(type="liquid", R=R * a, rho=1000.0, mu=0j, K=2.2e9 * a * a, static=True, incompressible=False)]
     raise ValueError(name)
@@ -40,6 +42,8 @@ def layers_for(rep):
 
 def solve_rep(rep):
     from harness.solver_lib import make_planet, solve
+    if rep["prob"] == "dyn_liquid_core" and "freq" not in rep:
+        rep = dict(rep, freq=1.0e-3)
     layers = layers_for(rep)
     # start radius: level x (top radius of the innermost, homogeneous, layer); make_planet wants it as a fraction of R
     p = make_planet(layers, n_per_layer=GRIDS[rep["grid"]], r0_frac=START_LEVELS[rep["start"]] * layers[0]["R"] / layers[-1]["R"])
